@@ -38,6 +38,7 @@ type SerializeItems<T> = fn(&mut SketchBytes, &[T]);
 type DeserializeItems<T> = fn(SketchSlice<'_>, usize) -> Result<Vec<T>, Error>;
 
 const LG_MIN_MAP_SIZE: u8 = 3;
+const LG_MAX_MAP_SIZE: u8 = 31;
 const SAMPLE_SIZE: usize = 1024;
 const EPSILON_FACTOR: f64 = 3.5;
 const LOAD_FACTOR_NUMERATOR: usize = 3;
@@ -483,11 +484,17 @@ impl<T: Eq + Hash> FrequentItemsSketch<T> {
         if lg_cur > lg_max {
             return Err(Error::deserial("lg_cur_map_size exceeds lg_max_map_size"));
         }
+        if lg_max > LG_MAX_MAP_SIZE {
+            return Err(Error::deserial(format!(
+                "lg_max_map_size must be at most {LG_MAX_MAP_SIZE}, got {lg_max}"
+            )));
+        }
 
         let is_empty = (flags & EMPTY_FLAG_MASK) != 0;
         if is_empty {
             ensure_preamble_longs_in(&[PREAMBLE_LONGS_EMPTY], pre_longs)?;
-            return Ok(Self::with_lg_map_sizes(lg_max, lg_cur));
+            // a sketch that has seen no weight has never grown its map
+            return Ok(Self::with_lg_map_sizes(lg_max, LG_MIN_MAP_SIZE));
         }
 
         ensure_preamble_longs_in(&[PREAMBLE_LONGS_NONEMPTY], pre_longs)?;
@@ -502,6 +509,15 @@ impl<T: Eq + Hash> FrequentItemsSketch<T> {
             .read_u64_le()
             .map_err(insufficient_data("stream_weight"))?;
         let offset_val = cursor.read_u64_le().map_err(insufficient_data("offset"))?;
+        // every counter takes 8 bytes of the image, and no more of them can be active than the
+        // map may hold
+        if active_items > cursor.remaining() / 8
+            || active_items > (1usize << lg_cur) * LOAD_FACTOR_NUMERATOR / LOAD_FACTOR_DENOMINATOR
+        {
+            return Err(Error::deserial(format!(
+                "invalid active item count {active_items}"
+            )));
+        }
 
         let mut values = Vec::with_capacity(active_items);
         for i in 0..active_items {
@@ -510,6 +526,21 @@ impl<T: Eq + Hash> FrequentItemsSketch<T> {
                     "expected {active_items} weights, failed at index {i}"
                 ))
             })?);
+        }
+
+        // counters are what is left of the stream weight after purges; together with the
+        // offset they must stay within it
+        let mut sum = 0u64;
+        for value in &values {
+            sum = sum
+                .checked_add(*value)
+                .filter(|s| *s <= stream_weight)
+                .ok_or_else(|| Error::deserial("counters exceed the stream weight"))?;
+        }
+        if offset_val > stream_weight
+            || values.iter().any(|v| v.checked_add(offset_val).is_none())
+        {
+            return Err(Error::deserial("offset out of range"));
         }
 
         let items = deserialize_items(cursor, active_items)?;
